@@ -3,8 +3,11 @@ package c04
 
 import (
 	"fmt"
+	"runtime"
 	"sync"
 	"sync/atomic"
+
+	r "github.com/Trisia/randomness"
 
 	"verif/calls"
 	"verif/common"
@@ -261,6 +264,21 @@ func Run(ctx *common.Ctx) int {
 		}
 	}
 	cmp.Count("rank: all 27 class sequences of three matrices x tails {0,1,1023}", seqEvals)
+	// call sequences: the parameterised entry point with other (legal) dimensions first, scratch state emptied by
+	// two garbage collections, then the standard 32x32 test: nothing of the earlier call may matter
+	for _, dim := range [][2]int{{8, 8}, {3, 3}, {16, 16}, {32, 16}} {
+		runtime.GC()
+		runtime.GC()
+		small := enum.Filler(4096, uint64(dim[0])+5)
+		_ = common.Catch(func() { r.MatrixRankProto(small, dim[0], dim[1]) })
+		for k := 0; k < 3; k++ {
+			bits := enum.Filler(3*1024+17, uint64(ctx.Seed)+uint64(dim[0]*10+k))
+			seqEvals += int64(dRank.One(bits, func() interface{} {
+				return map[string]interface{}{"sequence": fmt.Sprintf("runtime.GC x2; MatrixRankProto(.,%d,%d); MatrixRankProto(filler,32,32)", dim[0], dim[1])}
+			}))
+		}
+	}
+	cmp.Count("rank: the 32x32 test after a call with other dimensions (8x8, 3x3, 16x16, 32x16) and emptied pools", 12)
 	cmp.Sample(map[string]interface{}{"family": "rank", "example": "diag(I_31,0) after 'add row 15 to row 0' and 'swap columns 30,1' must still be classified full-1", "bfs_states": states, "bfs_transitions": transitions, "classes_seen": rankClasses.Map()})
 
 	// ---------- linear complexity ----------
